@@ -14,6 +14,9 @@
 //      (every call gets an exact-size heap copy of the readable bytes), ret <= size, termination;
 //   2. resumability: unsegmented feed, the generated segmentation and (streams <= 1 KiB) byte-by-byte feeding
 //      produce the same callback sequence, the same final state (waiting / error) and the same unconsumed tail;
+//   4. statelessness: when the case consists of several successive streams (op `newstream`: the connection is dropped, possibly in
+//      the middle of a frame, and the SAME proto object is used for the next one, receive buffer from offset 0), every stream
+//      decodes exactly as it does on a fresh proto object (callbacks, final state, unconsumed tail);
 //   3. header-stream only: frame boundaries agree with an independent reading of the documented layout
 //      magic(2) + length(4, big endian) + text (number of frames consumed, waiting vs. error, unconsumed tail).
 #define VERIF_MAIN
@@ -24,7 +27,7 @@ using namespace c14;
 
 namespace {
 
-enum { PROTO, RAW, REP, LIT, HDR, HDRAUTO, NEST, UNNEST, CUT, ENDFRAME, LOG, NOPS };
+enum { PROTO, RAW, REP, LIT, HDR, HDRAUTO, NEST, UNNEST, CUT, ENDFRAME, LOG, NEWSTREAM, NOPS };
 const char *const kLits[] = {
   /*0*/ "{\"jsonrpc\":\"2.0\",\"method\":\"m\",\"params\":",
   /*1*/ "}",
@@ -41,13 +44,22 @@ const char *const kLits[] = {
   /*12*/ "\n",
   /*13*/ "1",
   /*14*/ "{\"jsonrpc\":\"2.0\",\"method\":\"n\"}",
+  /*15*/ "{\"jsonrpc\":\"2.0\",\"id\":4,\"error\":{\"code\":-5,\"data\":",
+  /*16*/ "}}",
+  /*17*/ "{\"jsonrpc\":\"2.0\",\"id\":4,\"error\":",
+  /*18*/ "{\"jsonrpc\":\"2.0\",\"result\":1,\"id\":",
+  /*19*/ "{\"jsonrpc\":\"2.0\",\"id\":5,\"method\":",
+  /*20*/ "{\"jsonrpc\":\"2.0\",\"id\":6,\"error\":{\"data\":",
+  /*21*/ ",\"code\":-7}}",
 };
 const int kNLits = sizeof kLits / sizeof kLits[0];
 const char *const kOpen[] = {"[", "{\"a\":"};
 const char *const kClose[] = {"]", "}"};
 const size_t kMaxStream = 12u << 20;
 
-struct Built { int proto; std::string stream; std::vector<size_t> cuts; bool deep = false, big = false, edge_len = false, log = false; };
+struct Part { std::string stream; std::vector<size_t> cuts; };
+// parts: the successive streams (connections) of the case; `stream` / `cuts` are the one under construction
+struct Built { int proto; std::string stream; std::vector<size_t> cuts; std::vector<Part> parts; bool deep = false, big = false, edge_len = false, log = false; };
 
 Built build(const Scenario &s, int dflt_proto) {
   Built b; b.proto = dflt_proto;
@@ -59,7 +71,17 @@ Built build(const Scenario &s, int dflt_proto) {
     b.stream.replace((size_t)auto_at, 6, header(kMagic, len));
     auto_at = -1;
   };
-  auto room = [&](size_t n) { return b.stream.size() + n <= kMaxStream; };
+  size_t total = 0;   // bytes of the finished parts
+  auto room = [&](size_t n) { return total + b.stream.size() + n <= kMaxStream; };
+  auto finishPart = [&]() {
+    closeAuto();
+    for (auto v : cutreq) { Op o; o.a = {v}; size_t c = (size_t)o.in(0, 0, (int64_t)b.stream.size()); if (c > 0 && c < b.stream.size()) b.cuts.push_back(c); }
+    std::sort(b.cuts.begin(), b.cuts.end());
+    b.cuts.erase(std::unique(b.cuts.begin(), b.cuts.end()), b.cuts.end());
+    total += b.stream.size();
+    b.parts.push_back(Part{std::move(b.stream), std::move(b.cuts)});
+    b.stream.clear(); b.cuts.clear(); cutreq.clear();
+  };
   for (auto &op : s.ops) {
     switch (op.code) {
       case PROTO: b.proto = (int)op.in(0, 0, NPROTO - 1); break;
@@ -79,14 +101,12 @@ Built build(const Scenario &s, int dflt_proto) {
         if (n >= 2000) b.deep = true;
         break; }
       case CUT: cutreq.push_back(op.arg(0)); break;
-      case LOG: b.log = op.in(0, 0, 1) != 0; break;   // traffic logging on: setLogEnable(true) + a registered log channel
+      case LOG: b.log = op.in(0, 0, 1) != 0; break;
+      case NEWSTREAM: if (b.parts.size() < 3) finishPart(); break;   // the connection is dropped here; what follows arrives on a new one, same proto object   // traffic logging on: setLogEnable(true) + a registered log channel
       default: break;
     }
   }
-  closeAuto();
-  for (auto v : cutreq) { Op o; o.a = {v}; size_t c = (size_t)o.in(0, 0, (int64_t)b.stream.size()); if (c > 0 && c < b.stream.size()) b.cuts.push_back(c); }
-  std::sort(b.cuts.begin(), b.cuts.end());
-  b.cuts.erase(std::unique(b.cuts.begin(), b.cuts.end()), b.cuts.end());
+  finishPart();
   return b;
 }
 
@@ -133,9 +153,13 @@ RefHdr refHeader(const std::string &s) {
 }
 
 std::string runFraming(const Scenario &s, CaseInfo &info, int dflt_proto) {
-  Built b = build(s, dflt_proto);
-  bool shallow = b.deep || b.stream.size() > (256u << 10);
+  Built bb0 = build(s, dflt_proto);
   uint64_t log_lines = 0;
+  bool any_frame = false, frames2 = false, fired = false, errret = false, waiting = false, segmented = false;
+  std::vector<RunOut> fresh;   // per stream: decode by a fresh proto object with the stream's own segmentation
+  for (size_t pi = 0; pi < bb0.parts.size(); ++pi) {
+  struct { int proto; const std::string &stream; const std::vector<size_t> &cuts; bool deep, log; } b{bb0.proto, bb0.parts[pi].stream, bb0.parts[pi].cuts, bb0.deep, bb0.log};
+  bool shallow = b.deep || b.stream.size() > (256u << 10);
   RunOut whole = runOnce(b.proto, b.stream, b.proto == P_PACKET ? b.cuts : std::vector<size_t>(), shallow, b.log, &log_lines);
   if (!whole.fr.err.empty()) return std::string(kProtoName[b.proto]) + ": " + whole.fr.err;
   if (b.proto != P_PACKET) {
@@ -144,7 +168,8 @@ std::string runFraming(const Scenario &s, CaseInfo &info, int dflt_proto) {
       if (!seg.fr.err.empty()) return std::string(kProtoName[b.proto]) + " (segmented): " + seg.fr.err;
       std::string d = compareRuns("the generated segmentation", whole, seg, shallow);
       if (!d.empty()) return std::string(kProtoName[b.proto]) + ": " + d;
-    }
+      fresh.push_back(std::move(seg));
+    } else fresh.push_back(whole);
     if (b.stream.size() >= 2 && b.stream.size() <= 1024) {
       RunOut bb = runOnce(b.proto, b.stream, everyByte(b.stream.size()), shallow, b.log);
       if (!bb.fr.err.empty()) return std::string(kProtoName[b.proto]) + " (byte by byte): " + bb.fr.err;
@@ -152,6 +177,7 @@ std::string runFraming(const Scenario &s, CaseInfo &info, int dflt_proto) {
       if (!d.empty()) return std::string(kProtoName[b.proto]) + ": " + d;
     }
   }
+  else fresh.push_back(whole);
   if (b.proto == P_HEADER) {
     RefHdr r = refHeader(b.stream);
     char buf[300];
@@ -161,24 +187,56 @@ std::string runFraming(const Scenario &s, CaseInfo &info, int dflt_proto) {
       return buf;
     }
   }
+  any_frame |= whole.fr.frames >= 1; frames2 |= whole.fr.frames >= 2; fired |= !whole.evs.empty(); errret |= whole.fr.status != 0;
+  waiting |= whole.fr.status == 0 && whole.fr.leftover > 0; segmented |= !b.cuts.empty();
+  }   // per stream
+  const Built &b = bb0;
+  // ---- statelessness across streams: ONE proto object decodes the streams one after the other (a dropped connection, then a new one:
+  // the receive buffer starts from offset 0 again); every stream must decode exactly as it does on a fresh proto object
+  bool abandoned_then_complete = false;
+  if (b.parts.size() >= 2) {
+    bool shallow = b.deep;
+    for (auto &pt : b.parts) if (pt.stream.size() > (256u << 10)) shallow = true;
+    auto p = mkProto(b.proto);
+    std::unique_ptr<TrafficLog> tl;
+    if (b.log) { tl.reset(new TrafficLog); TrafficLog::enable(*p, "c14-peer"); }
+    Recorder rec; rec.shallow = shallow; rec.attach(*p);
+    p->setSendCallback([](const void *, size_t) {});
+    bool prev_abandoned = false;
+    for (size_t pi = 0; pi < b.parts.size(); ++pi) {
+      rec.evs.clear();
+      RunOut o; o.fr = feed(*p, b.proto, b.parts[pi].stream, b.parts[pi].cuts); o.evs = rec.evs;
+      std::string what = "stream " + std::to_string(pi + 1) + " of " + std::to_string(b.parts.size()) + " decoded by a proto object that had decoded the earlier stream(s)";
+      if (!o.fr.err.empty()) return std::string(kProtoName[b.proto]) + ", " + what + ": " + o.fr.err;
+      std::string d = compareRuns(what.c_str(), fresh[pi], o, shallow);
+      if (!d.empty()) { size_t k = d.find("the unsegmented stream"); while (k != std::string::npos) { d.replace(k, 22, "a fresh proto object"); k = d.find("the unsegmented stream"); }
+                        k = d.find(", unsegmented "); if (k != std::string::npos) d.replace(k, 14, ", fresh object "); k = d.find("(unsegmented "); if (k != std::string::npos) d.replace(k, 13, "(fresh object ");
+                        return std::string(kProtoName[b.proto]) + ": " + d; }
+      if (prev_abandoned && fresh[pi].fr.frames >= 1) abandoned_then_complete = true;
+      prev_abandoned = b.proto != P_PACKET && fresh[pi].fr.status == 0 && fresh[pi].fr.leftover > 0;
+    }
+  }
   info.cls(kProtoName[b.proto]);
-  info.cls_if(whole.fr.frames >= 1, "complete_frame>=1");
-  info.cls_if(whole.fr.frames >= 2, "complete_frame>=2");
-  info.cls_if(!whole.evs.empty(), "callback_fired");
-  info.cls_if(whole.fr.status != 0, "error_return");
-  info.cls_if(whole.fr.status == 0 && whole.fr.leftover > 0, "waiting_with_partial_frame");
-  info.cls_if(!b.cuts.empty(), "segmented");
+  info.cls_if(any_frame, "complete_frame>=1");
+  info.cls_if(frames2, "complete_frame>=2");
+  info.cls_if(fired, "callback_fired");
+  info.cls_if(errret, "error_return");
+  info.cls_if(waiting, "waiting_with_partial_frame");
+  info.cls_if(segmented, "segmented");
+  info.cls_if(b.parts.size() >= 2, "proto_object_reused_for_a_second_stream");
+  info.cls_if(abandoned_then_complete, "stream_with_complete_frames_after_an_abandoned_partial_frame");
   info.cls_if(b.deep, "deep_nesting>=2000");
   info.cls_if(b.big, "run>=64KiB");
   info.cls_if(b.edge_len, "length_field>=2^31-1");
   info.cls_if(b.log, "traffic_logging_on");
   info.cls_if(b.log && log_lines > 0, "traffic_line_logged");
-  info.nontrivial = whole.fr.frames >= 1;
+  info.nontrivial = any_frame;
   return "";
 }
 
 // libFuzzer bytes -> scenario: the stream is the front of the input; the LAST byte is the number of cuts n (mod 8),
-// the 2n bytes before it are big-endian cut positions; bits 3-4 of the last byte == 01 switch traffic logging on.
+// the 2n bytes before it are big-endian cut positions; bits 3-4 of the last byte == 01 switch traffic logging on; bit 5 turns
+// the first cut into the end of a first stream (the rest is a second stream for the same proto object).
 // Seed files are therefore "stream + trailer".
 Scenario decodeBytes(int proto, const uint8_t *d, size_t n) {
   Scenario s;
@@ -187,13 +245,21 @@ Scenario decodeBytes(int proto, const uint8_t *d, size_t n) {
   bool log = false;
   if (n >= 1) { ncut = d[n - 1] % 8; log = ((d[n - 1] >> 3) & 3) == 1; body = n - 1; while (ncut * 2 > body) --ncut; body -= ncut * 2; }
   if (log) { Op o; o.code = LOG; o.a = {1}; s.ops.push_back(o); }   // bits 3-4 of the last byte == 01: traffic logging on (a quarter of the byte values)
-  if (body) { Op o; o.code = RAW; o.a.assign(d, d + body); s.ops.push_back(std::move(o)); }
-  for (size_t k = 0; k < ncut; ++k) { Op o; o.code = CUT; o.a = {(int64_t)(d[body + 2 * k] << 8 | d[body + 2 * k + 1])}; s.ops.push_back(o); }
+  // bit 5 of the last byte: the first cut position does not segment the stream, it ENDS it: the bytes behind it arrive as a new
+  // stream (new connection) on the same proto object; the remaining cut values segment both streams
+  bool reuse = n >= 1 && (d[n - 1] & 0x20) && ncut >= 1 && body >= 2;
+  size_t split = reuse ? 1 + (size_t)(d[body] << 8 | d[body + 1]) % (body - 1) : body;
+  auto emit = [&](size_t from, size_t to) {
+    if (to > from) { Op o; o.code = RAW; o.a.assign(d + from, d + to); s.ops.push_back(std::move(o)); }
+    for (size_t k = reuse ? 1 : 0; k < ncut; ++k) { Op o; o.code = CUT; o.a = {(int64_t)(d[body + 2 * k] << 8 | d[body + 2 * k + 1])}; s.ops.push_back(o); }
+  };
+  emit(0, split);
+  if (reuse) { Op o; o.code = NEWSTREAM; s.ops.push_back(o); emit(split, body); }
   return s;
 }
 
-const std::vector<const char*> kOpNames = {"proto", "raw", "rep", "lit", "hdr", "hdrauto", "nest", "unnest", "cut", "endframe", "log"};
-const std::vector<int> kArity = {1, 8, 2, 1, 2, 1, 2, 2, 1, 0, 1};
+const std::vector<const char*> kOpNames = {"proto", "raw", "rep", "lit", "hdr", "hdrauto", "nest", "unnest", "cut", "endframe", "log", "newstream"};
+const std::vector<int> kArity = {1, 8, 2, 1, 2, 1, 2, 2, 1, 0, 1, 0};
 
 SubDef mkFuzzSub(const char *name, int proto) {
   SubDef d; d.name = name; d.op_names = kOpNames; d.op_arity = kArity;
@@ -220,7 +286,7 @@ Scenario expandExtreme(uint64_t seed) {
   int proto = (int)r.rng(0, 2);
   mk(PROTO, {proto});
   if (r.chance(1, 3)) mk(LOG, {1});
-  int shape = (int)r.pick({{5, 0}, {3, 1}, {4, 2}, {2, 3}, {2, 4}});
+  int shape = (int)r.pick({{8, 0}, {3, 1}, {4, 2}, {2, 3}, {2, 4}, {4, 5}});
   bool hdr = proto == P_HEADER && shape != 2;
   int64_t delta = r.pick({{8, 0}, {1, 1}, {1, -1}});
   if (hdr) mk(HDRAUTO, {delta});
@@ -228,14 +294,17 @@ Scenario expandExtreme(uint64_t seed) {
     case 0: {   // deep nesting
       int64_t depth = r.pick({{1, 10}, {2, 1000}, {2, 20000}, {2, 100000}, {3, 200000}, {1, 300000}}) + r.rng(0, 3);
       int kind = (int)r.pick({{5, 0}, {1, 1}});
-      int wrap = (int)r.pick({{4, 0}, {2, 1}, {2, 2}});   // bare (batch path) | as params | as result
-      if (wrap == 1) mk(LIT, {0}); else if (wrap == 2) mk(LIT, {2});
+      // bare (batch path) | as params | as result | as error.data | as error.data before code | as the error value itself | as id | as method
+      int wrap = (int)r.pick({{4, 0}, {2, 1}, {2, 2}, {2, 3}, {1, 4}, {2, 5}, {1, 6}, {1, 7}});
+      static const int open_lit[] = {-1, 0, 2, 15, 20, 17, 18, 19};
+      static const int close_lit[] = {-1, 1, 1, 16, 21, 1, 1, 1};
+      if (wrap) mk(LIT, {open_lit[wrap]});
       mk(NEST, {depth, kind});
       int inner = (int)r.pick({{3, -1}, {3, 6}, {1, 13}, {1, 9}});
       if (inner >= 0 && kind == 0) mk(LIT, {inner}); else if (kind == 1) mk(LIT, {13});
       int64_t close = r.pick({{6, depth}, {1, depth - 1}, {1, depth + 1}, {1, 0}, {1, depth / 2}});
       mk(UNNEST, {close, kind});
-      if (wrap) mk(LIT, {1});
+      if (wrap) mk(LIT, {close_lit[wrap]});
       break; }
     case 1: {   // one huge string
       int64_t n = r.pick({{2, 65536}, {3, 1 << 20}, {1, (1 << 20) + 1}, {1, 2 << 20}});
@@ -259,6 +328,23 @@ Scenario expandExtreme(uint64_t seed) {
       int n = (int)r.pick({{1, 50}, {2, 400}, {1, 1000}});
       for (int i = 0; i < n; ++i) { if (hdr && i) mk(HDRAUTO, {0}); mk(LIT, {r.pick({{2, 6}, {1, 8}, {1, 9}, {1, 14}})}); if (proto == P_RAW && r.chance(1, 4)) mk(LIT, {12}); }
       break; }
+    case 5: {   // one proto object, 2-3 successive streams; an earlier stream may end in an abandoned partial frame
+      int ns = (int)r.pick({{3, 2}, {1, 3}});
+      for (int k = 0; k < ns; ++k) {
+        if (k) { if (hdr) mk(ENDFRAME, {}); mk(NEWSTREAM, {}); if (hdr) mk(HDRAUTO, {0}); }
+        bool last = k == ns - 1;
+        int nmsg = (int)r.pick({{2, 0}, {3, 1}, {2, 2}, {1, 4}});
+        if (last && nmsg == 0) nmsg = 1;
+        for (int i = 0; i < nmsg; ++i) { if (hdr && i) { mk(ENDFRAME, {}); mk(HDRAUTO, {0}); } mk(LIT, {r.pick({{3, 6}, {1, 14}, {1, 9}, {1, 8}})}); if (proto == P_RAW && r.chance(1, 4)) mk(LIT, {12}); }
+        if (!last && r.chance(3, 4)) {   // abandoned fragment: an unterminated message, usually longer than what follows
+          if (hdr && nmsg) { mk(ENDFRAME, {}); }
+          if (hdr) mk(HDR, {0, r.pick({{2, 100000}, {1, 500}})});
+          mk(LIT, {r.pick({{2, 0}, {1, 4}, {1, 2}})}); mk(LIT, {3}); mk(REP, {'x', r.pick({{1, 10}, {2, 200}, {2, 3000}, {1, 70000}})});
+        }
+        int nc = (int)r.pick({{3, 0}, {2, 1}, {1, 3}});
+        for (int i = 0; i < nc; ++i) mk(CUT, {r.pick({{1, r.rng(1, 12)}, {3, r.rng(0, 400)}})});
+      }
+      break; }
     default: {  // batch of many requests
       int n = (int)r.pick({{1, 10}, {2, 2000}, {1, 20000}});
       mk(LIT, {10});
@@ -267,8 +353,8 @@ Scenario expandExtreme(uint64_t seed) {
       break; }
   }
   if (hdr) mk(ENDFRAME, {});
-  if (r.chance(1, 4)) mk(LIT, {6});   // something after the extreme part (left unframed for the header proto: an error there)
-  int ncut = (int)r.pick({{3, 0}, {3, 1}, {2, 3}});
+  if (shape != 5 && r.chance(1, 4)) mk(LIT, {6});   // something after the extreme part (left unframed for the header proto: an error there)
+  int ncut = shape == 5 ? 0 : (int)r.pick({{3, 0}, {3, 1}, {2, 3}});
   for (int i = 0; i < ncut; ++i) mk(CUT, {r.pick({{1, r.rng(1, 12)}, {3, r.rng(0, 1 << 21)}})});
   return sc;
 }
